@@ -367,10 +367,69 @@ Proof.
   reflexivity.
 Qed.
 
-(* Decode never returns a value without consuming input: for every state, reader and stream *)
+Lemma drop_ws_length_le : forall l, length (drop_ws l) <= length l.
+Proof. induction l; simpl; [lia|]. destruct (is_space a); simpl; lia. Qed.
+
+Lemma inner_decode_len : forall w v, inner_decode w = Some v -> length v <= length w.
+Proof.
+  intros w v H. unfold inner_decode in H.
+  destruct (scan_value false w) as [n|n| |]; try discriminate; inversion H; subst;
+    (eapply Nat.le_trans; [apply drop_ws_length_le|]); rewrite firstn_length; lia.
+Qed.
+
+(* Decode never returns a value without consuming input: every state reached from a fresh decoder, every reader *)
 Theorem decode_progress_value : forall avx2 st v st',
-  Decode (skip_one_fast avx2) inner_decode st = (RVal v, st') -> (InputOffset st < InputOffset st')%nat.
-Proof. intros avx2. apply decode_progress; [apply skip_one_fast_pos|apply inner_decode_pos]. Qed.
+  BInv st -> Decode (skip_one_fast avx2) inner_decode st = (RVal v, st') -> (InputOffset st < InputOffset st')%nat.
+Proof.
+  intros avx2 st v st' B H.
+  exact (decode_progress _ _ (skip_one_fast_pos avx2) inner_decode_pos inner_decode_len st v st' B H).
+Qed.
+
+(* exact accounting: `scanned + len(buf) + undelivered bytes` (= the length of the stream, for a decoder started on it)
+   is unchanged by every successful Decode, which ends with scanp = 0; hence InputOffset() is exactly the number of
+   bytes that are no longer pending *)
+Theorem input_offset_exact : forall avx2 st v st',
+  BInv st -> Decode (skip_one_fast avx2) inner_decode st = (RVal v, st') ->
+  acct st' = acct st /\ InputOffset st' + length (pending st') = acct st.
+Proof.
+  intros avx2 st v st' B H.
+  destruct (decode_acct _ _ (skip_one_fast_pos avx2) inner_decode_pos inner_decode_len st v st' B H) as (A & _ & Z).
+  split; [exact A|]. rewrite <- A. unfold InputOffset, pending, acct. rewrite Z. simpl. rewrite app_length. lia.
+Qed.
+
+Lemma acct_new_decoder : forall r pc, acct (new_decoder r pc) = length (rd_bytes r).
+Proof. intros. unfold acct. simpl. lia. Qed.
+
+(* InputOffset() after a value lies between the end of that value and the beginning of the next token - both are
+   positions in the byte stream (acct st - what is left), so the bounds do not depend on the chunking *)
+Theorem input_offset_bounds : forall avx2 st n v,
+  Inv st -> BInv st ->
+  gv_step avx2 (rfin (rd st)) (drop_ws (pending st)) = GVal n v ->
+  exists st', Decode (skip_one_fast avx2) inner_decode st = (RVal v, st') /\
+    acct st - length (skipn n (drop_ws (pending st))) <= InputOffset st' /\
+    InputOffset st' <= acct st - length (drop_ws (skipn n (drop_ws (pending st)))).
+Proof.
+  intros avx2 st n v I B GS.
+  destruct (drop_ws (pending st)) as [|c0 rest0] eqn:D; [discriminate|].
+  apply gv_step_val in GS. destruct GS as (c & rest & E & Ev & El & _ & CASES). inversion E; subst c0 rest0.
+  assert (FIN : forall st' : sd,
+            Decode (skip_one_fast avx2) inner_decode st = (RVal v, st') ->
+            drop_ws (pending st') = drop_ws (skipn n (c :: rest)) ->
+            length (pending st') <= length (skipn n (c :: rest)) ->
+            exists st'0, Decode (skip_one_fast avx2) inner_decode st = (RVal v, st'0) /\
+              acct st - length (skipn n (c :: rest)) <= InputOffset st'0 /\
+              InputOffset st'0 <= acct st - length (drop_ws (skipn n (c :: rest)))).
+  { intros st' DE P' PL'. exists st'. split; [exact DE|].
+    destruct (input_offset_exact avx2 st v st' B DE) as [_ EX].
+    pose proof (drop_ws_length_le (pending st')) as DL. rewrite P' in DL. lia. }
+  destruct CASES as [(NS & FR & Hn & Hns & ID & _)|[(NS & ML & ID & Hl & _)|(NS & FE & ME & ID & Hl & _)]].
+  - destruct (Decode_val _ _ st c rest n v I D NS FR Hn Hns ID) as (st' & DE & _ & P' & _ & _ & PL'). eauto.
+  - rewrite <- El in *.
+    destruct (Decode_num (skip_one_fast avx2) inner_decode st c rest v I D NS ML ID Hl) as (st' & DE & _ & P' & _ & _ & PL'). eauto.
+  - rewrite <- El in *.
+    pose proof (Decode_num_end (skip_one_fast avx2) inner_decode st c rest I D NS ME) as DN. rewrite FE in DN.
+    destruct (DN v ID Hl) as (st' & DE & _ & P' & _ & _ & PL'). eauto.
+Qed.
 
 (* ... and it never returns nil without a value: RNil is not a result of Decode *)
 Theorem decode_never_nil : forall avx2 st, Inv st -> fst (Decode (skip_one_fast avx2) inner_decode st) <> RNil.
